@@ -4,6 +4,10 @@ from remerkleable.tree import to_gindex, get_depth
 
 THEOREMS = ["C12_default_node", "C12_default_is_constructed", "C12_default_encoding", "C12_container_navigable", "C12_vector_navigable", "C12_zero_wellformed", "C12_equals_explicit", "C12_omitted_fields", "C12_chunks_navigable"]
 PARTIAL = ["the model theorems cover the whole statement: the default backing is the constructor's backing of the zero value for every type (same tree, same encoding and root), container fields / composite vector elements / data chunks of bit-, byte- and packed vectors are navigable (C12_container_navigable, C12_vector_navigable, C12_chunks_navigable), omitted constructor fields take the zero value (C12_omitted_fields); the Python classmethods (default, default_node, Type()) are tied by the correspondence"]
+# second tie: the tree builders of remerkleable/tree.py (every composite value and every default is built by them) are
+# TRANSLATED on every run (harness/translate_fill.py, fail-closed) and proved equal to the model's (coq/trans/FillEq.v)
+TRANSLATED = {"translator": "translate_fill", "source": "remerkleable/tree.py", "gen": "FillGen.v", "proofs": "FillEq.v",
+              "theorems": ["eq_fill_to_depth", "eq_fill_to_length", "eq_fill_to_contents"]}
 COQ_IMPORTS = ["RM.Types", "RMR.RunV"]
 COQ_FN = "RunV.run_c12"
 COQ_CASE_TY = "(ty * list N)"
